@@ -6,6 +6,7 @@ import gen_attrs
 import gen_builder
 import gen_caps
 import gen_fsm
+import gen_comm
 
 GENERATORS = {
     'enums': (gen_enums.gen, 'EnumTables.v'),
@@ -15,4 +16,5 @@ GENERATORS = {
     'builder': (gen_builder.gen, 'BuilderConsts.v'),
     'caps': (gen_caps.gen, 'CapRules.v'),
     'fsm': (gen_fsm.gen, 'FsmTable.v'),
+    'comm': (gen_comm.gen, 'CommTables.v'),
 }
